@@ -317,10 +317,9 @@ def main(a):
                 else:
                     reuse_artefacts += 1
             print("NOTE %d run(s) gave different output in long-lived workers but identical output in fresh processes (state kept for the life of a process)" % len(mism))
-        if mism and not harness_errors:
-            pass
-        elif sorted((c["run"], c["sig"]) for c in g["candidates"]) != sorted((c["run"], c["sig"]) for c in rnd["candidates"] if c["run"] < ngate) and not (g["stopped_early"] or rnd.get("stopped_early")):
-            harness_errors.append("candidate set differs between two executions of the first %d random runs" % ngate)
+        if sorted((c["run"], c["sig"]) for c in g["candidates"]) != sorted((c["run"], c["sig"]) for c in rnd["candidates"] if c["run"] < ngate) and not (g["stopped_early"] or rnd.get("stopped_early")):
+            harness_errors += orch.gate_candidate_difference(g["candidates"], [c for c in rnd["candidates"] if c["run"] < ngate],
+                                                             lambda c: orch.dump_plan(l1, "DUMP RUNS %d %d" % (a.seed, c["run"]), ENV, args=wargs), l1, ENV, args=wargs)
 
         # ---- uninitialised-memory twins: the same runs in a build whose uninitialised stack and heap
         # contents are zero instead of a pattern; any difference in (status, stdout, stderr) is a read of
